@@ -201,7 +201,7 @@ impl From<OverflowError> for AnyError { fn from(e: OverflowError) -> (r: AnyErro
 impl Timestamp {
     pub fn nanos(&self) -> (r: u64) ensures r == self.nanos { self.nanos }
     pub fn seconds(&self) -> (r: u64) ensures r == self.nanos / 1_000_000_000 { self.nanos / 1_000_000_000 }
-    // strict_sub / strict_add: panic on under/overflow = precondition / partial correctness
+    // minus_*: strict_sub (panic on underflow); plus_seconds: `a * 1_000_000_000` is a plain u64 multiplication (wraps when overflow checks are off), then strict_add; the contract below is conditional on the sum fitting and says nothing otherwise = precondition / partial correctness
     pub fn minus_nanos(&self, sub: u64) -> (r: Timestamp) requires self.nanos >= sub ensures r.nanos == self.nanos - sub { Timestamp { nanos: self.nanos - sub } }
     #[verifier::external_body]
     pub fn plus_seconds(&self, add: u64) -> (r: Timestamp)
